@@ -163,3 +163,39 @@ func VerifC12ProxyState(s *Session) (bool, bool, string, string) {
 // VerifC12ScriptSync runs the client's Script handler (muxHandleScriptAsync = muxHandleScript +
 // muxHandleSend) on the calling goroutine instead of a new one.
 func VerifC12ScriptSync(s *Session, n *com.Packet) { muxHandleScriptAsync(s, n) }
+
+// ---- C12: a full in-process migration (real Server / Listener / client / pipe) ----
+
+// VerifC12NewServer, VerifC12Connect and VerifC12LoadContext only supply the NOP logger.
+func VerifC12NewServer() *Server { return NewServer(logx.NOP) }
+func VerifC12Connect(x context.Context, p cfg.Profile) (*Session, error) {
+	return ConnectContext(x, logx.NOP, p)
+}
+func VerifC12LoadContext(x context.Context, n string, t time.Duration) (*Session, error) {
+	return LoadContext(x, logx.NOP, n, t)
+}
+
+// VerifC12KeysReady reports whether the Server has generated its KeyPair (done on its event thread).
+func VerifC12KeysReady(s *Server) bool { return !s.Keys.Empty() }
+
+// VerifC12TrackJob registers a Job of the given type on a server-side Session the way Session.Task
+// does, without sending a Task (the migration is started by hand on the client).
+func VerifC12TrackJob(s *Session, id uint16, t uint8) *Job {
+	j := &Job{ID: id, Type: t, Start: time.Now(), s: s, done: make(chan struct{})}
+	s.lock.Lock()
+	s.jobs[id] = j
+	s.lock.Unlock()
+	return j
+}
+
+// VerifC12AttachedProxy returns the attached proxy record with its marshalled profile (nil when none).
+func VerifC12AttachedProxy(s *Session) *VerifC12PD {
+	if s.proxy == nil || !s.proxy.IsActive() {
+		return nil
+	}
+	o := &VerifC12PD{Name: s.proxy.name, Addr: s.proxy.addr}
+	if m, ok := s.proxy.p.(marshaler); ok {
+		o.Profile, _ = m.MarshalBinary()
+	}
+	return o
+}
